@@ -396,7 +396,7 @@ const (
 	P256 EllipticCurve = "P-256"
 
 	// P384 is a Curve which implements NIST P-384.
-	P384 EllipticCurve = "P-364"
+	P384 EllipticCurve = "P-384"
 
 	// P521 is a Curve which implements NIST P-521.
 	P521 EllipticCurve = "P-521"
